@@ -24,7 +24,7 @@ impl L {
         while !self.free(s, l) && l > 0 {
             s += l;
             n += 1;
-            if n > 40_000 {
+            if n > 6_000 {
                 return None;
             }
         }
@@ -463,7 +463,7 @@ fn gen_c10(r: &mut Rng, thorough: bool) -> Vec<Op> {
                     8 => a.1,
                     _ => r.range(0, 0x1000),
                 };
-                let new_len = new_len.min(16 << 20);
+                let new_len = new_len.min(if r.chance(1, 40) { 16 << 20 } else { 1 << 20 });
                 let start = if r.chance(1, 10) { a.0 + 1 } else { a.0 };
                 ops.push(Op::Resize { start, new_len });
                 let fits = !l.areas.iter().enumerate().any(|(j, b)| j != i && intersects(a.0, new_len, b.0, b.1));
